@@ -94,6 +94,14 @@ impl CharInfo {
     }
 }
 
+#[cfg(vibrato_verif)]
+impl CharProperty {
+    /// Category names indexed by category id.
+    pub fn verif_category_names(&self) -> &[String] {
+        &self.categories
+    }
+}
+
 struct CharRange {
     start: usize,
     end: usize,
